@@ -162,6 +162,13 @@ class DeterministicOde(BaseOdeModel):
         and acts accordingly.
         '''
         compiled_obj_name=method_name+"Compiled"
+        # the generator is looked up by name on the instance the method is
+        # bound to: copy.deepcopy rebinds the method to the copy, and the
+        # copy has to be compiled from its own definition, not from the
+        # definition of the model it was copied from
+        generator_name=getattr(sympy_obj_generator_func, "__name__", None)
+        if getattr(sympy_obj_generator_func, "__self__", None) is not self:
+            generator_name=None
 
         def func(self, state, t):
             # Check if compiled function is being created for the first time or
@@ -169,7 +176,8 @@ class DeterministicOde(BaseOdeModel):
             # we need to update both the sympy and compiled objects.
             if not hasattr(self, compiled_obj_name) or getattr(self._hasNewTransition, method_name):
                 # Make new sympy object and compiled it
-                self.add_compiled_sympy_object(method_name, compiled_obj_name, sympy_obj_generator_func, oT, is_master_canary)
+                generator=sympy_obj_generator_func if generator_name is None else getattr(self, generator_name)
+                self.add_compiled_sympy_object(method_name, compiled_obj_name, generator, oT, is_master_canary)
             return getattr(self, compiled_obj_name)(time=t, state=state)
         setattr(self, method_name, func.__get__(self))
 
